@@ -371,12 +371,26 @@ def check_width_oracle_assumption():
         raise RuntimeError("unicode-width gives whitespace %r a width above its byte length" % bad)
 
 
+def gen_wrap_release(rng):
+    """release build (no overflow checks): random texts, widths concentrated on the usize boundary"""
+    out = []
+    for _ in range(20000):
+        s = random_text(rng, False)
+        w = rng.choice([USIZE_MAX, USIZE_MAX - 1, USIZE_MAX - len(s), 2**63, 2**32, 0, 1, random_width(rng, s)])
+        out.append("(wrap %s %d %s)" % (hexs(s), w, width_table(s)))
+    return out
+
+
 def streams(tier, rng):
     check_width_oracle_assumption()
-    return [
+    sts = [
         Stream("wrap", gen_wrap(tier, rng), oracle=wrap_oracle, area="wrap", nontrivial=wrap_nontrivial),
         Stream("styled", gen_styled(tier, rng), oracle=styled_oracle, area="wrap", nontrivial=styled_nontrivial),
     ]
+    if tier == "thorough":
+        sts.append(Stream("wrap_release", gen_wrap_release(rng), oracle=wrap_oracle, area="wrap",
+                          nontrivial=wrap_nontrivial, profile="release"))
+    return sts
 
 
 def stale_newline_carryover(case):
